@@ -132,6 +132,9 @@ def run_C13(ctx):
                 else:
                     h.append(("step", rng.choice([None, ("numpy", 200), ("casadi", 201)])))
             hist.append(h)
+        # every unknown name once (also names that differ from a known one by letter case only), from a known selection
+        for bn in bad_names + ["NUMPY", "Numpy", "CASADI", "CasADi", "Casadi"]:
+            hist.append([("name", "numpy"), ("bad", bn), ("get",)])
         models = None
         if ctx["model_ok"]:
             def coq_op(op):
